@@ -57,7 +57,7 @@ def main():
                 res["suite_ok"] = "Status: SUCCESS" in r.stdout
                 res["suite_tail"] = r.stdout[-160:]
             for chk in (extra_checks or [prop]):
-                env = dict(os.environ, VERIF_REPO=wt, VERIF_TIER="quick")
+                env = dict(os.environ, VERIF_REPO=wt, VERIF_TIER="quick", VERIF_OUT=os.path.join(V, "build", "seeded_out"))
                 t0 = time.time()
                 r = sh([os.path.join(V, "check"), chk], env=env, cwd=V)
                 res["check_%s" % chk] = dict(rc=r.returncode, wall=round(time.time() - t0, 1),
